@@ -1207,7 +1207,8 @@ def gen_pulse(rng, n):
         nv = rng.randint(1, 8)
         vals = [complex(dy(rng, -1, 1, 8), 0) if rng.random() < 0.5 else
                 complex(dy(rng, -1, 1, 8) / 2, dy(rng, -1, 1, 8) / 2) for _ in range(nv)]
-        kind = rng.choice(["above", "above", "above", "unit", "valid", "ndim", "norf", "durlen", "durneg", "zero"])
+        kind = rng.choice(["above", "above", "above", "unit", "valid", "ndim", "norf", "durlen", "durneg", "zero",
+                           "alpha_only", "alpha_only"])
         call = rng.choice(["RFPulse", "RFPulse", "rfpulse", "make_pulse_sequence"])
         spec = {"call": call, "ndim": 1, "rf": 0.25, "alpha": None, "dur": 2.0, "form": rng.choice(FORMS)}
         exp, variant = "valid", "samples_within_unit_disc"
@@ -1219,6 +1220,14 @@ def gen_pulse(rng, n):
             exp, variant = "invalid", "sample_above_1_pos%d_of_%d" % (pos, nv)
             if rng.random() < 0.3 and call != "make_pulse_sequence":
                 spec["rf"], spec["alpha"] = 0.25, 30.0
+        elif kind == "alpha_only":
+            # constant phase (rf follows from alpha without an optimiser), rf not given
+            vals = [complex(abs(v.real) + 0.125 if abs(v.real) < 0.875 else 1.0, 0) for v in vals]
+            if call == "make_pulse_sequence":
+                call = spec["call"] = rng.choice(["RFPulse", "rfpulse"])
+            spec["rf"] = None
+            spec["alpha"] = rng.choice([0, 0.0, 0, 0.0, 2.0 ** -40, 30.0, 90.0, 180.0])
+            variant = "alpha_only_%s" % ("zero" if spec["alpha"] == 0 else "nonzero")
         elif kind == "unit":
             vals[rng.randrange(nv)] = rng.choice([1, -1, 1j, -1j])
             variant = "sample_of_modulus_exactly_1"
@@ -1272,8 +1281,9 @@ def build_pulse(spec, QK):
     else:
         thunk = lambda: rfpulse.make_pulse_sequence(epg.T, vals, dur, spec["rf"])
     d = "(PList %s)" % ql(dur) if isinstance(dur, list) else "(PScalar %s)" % q(dur)
-    term = "pulse_ok %s %s %s %s" % (core.coq_bool(bool(kw) or call == "make_pulse_sequence"), nat(spec["ndim"]),
-                                     cl(spec["values"]), d)
+    rf_given = spec["rf"] if (spec["rf"] is not None or call != "make_pulse_sequence") else 0.0
+    term = "pulse_ok %s %s %s %s %s" % (opt(rf_given, q), opt(spec["alpha"], q), nat(spec["ndim"]),
+                                        cl(spec["values"]), d)
     return thunk, term
 
 
@@ -1317,6 +1327,193 @@ def build_boundary(spec, QK):
     return (lambda: f(epg, sm)), term
 
 
+# ================================================================== falsy-but-valid argument values
+# Every validated / numeric argument of the modelled constructors and functions is given each form of
+# "zero" (python 0, 0.0, -0.0, numpy scalars, 0-d array, and where arrays are allowed 1-element array / list);
+# flags and optional collections get False / None / empty.  All of them are valid calls: the implementation
+# must not raise (a guard written with truthiness instead of `is None` / `< 0` rejects exactly these).
+ZERO_FORMS = {
+    "py_int": lambda: 0, "py_float": lambda: 0.0, "neg_zero": lambda: -0.0,
+    "np_float": lambda: np.float64(0.0), "np_int": lambda: np.int64(0), "array_0d": lambda: np.array(0.0),
+    "array_1": lambda: np.zeros(1), "list_1": lambda: [0.0],
+}
+SCALAR_FORMS = ["py_int", "py_float", "neg_zero", "np_float", "np_int", "array_0d"]
+ARRAY_FORMS = ["array_1", "list_1"]
+PULSE = [0.25, 0.5 + 0.5j, 1.0, 0.5]
+PULSE_REAL = [0.25, 0.5, 1.0, 0.5]     # constant phase: rf is computed from alpha without scipy
+
+
+def _mod(name):
+    import importlib
+    return importlib.import_module("epgpy." + name)
+
+
+def _sm(epg):
+    return epg.T(90, 0)(epg.StateMatrix())
+
+
+def _sm1(epg):
+    return epg.S(1)(_sm(epg))
+
+
+def _seq(sq):
+    a, T1, T2, tau = sq.Variable("a"), sq.Variable("T1"), sq.Variable("T2"), sq.Variable("tau")
+    return sq.Sequence([sq.T(a, 90), sq.E(tau, T1, T2), sq.ADC])
+
+
+# name: (callable(epg, z), model term, allowed extra forms)
+FALSY = {
+    "T_alpha": (lambda epg, z: epg.T(z, 30)(_sm(epg)), "prepare_ok true [1%nat] [1%nat]", ARRAY_FORMS),
+    "T_phi": (lambda epg, z: epg.T(30, z)(_sm(epg)), "prepare_ok true [1%nat] [1%nat]", ARRAY_FORMS),
+    "T_alpha_and_phi": (lambda epg, z: epg.T(z, z)(_sm(epg)), "prepare_ok true [1%nat] [1%nat]", ARRAY_FORMS),
+    "T_alpha_order1": (lambda epg, z: epg.T(z, z, order1=True, order2=True)(_sm(epg)),
+                       'parse_partials_ok ["alpha"%string; "phi"%string] [] O1True O2False', []),
+    "T_duration": (lambda epg, z: epg.T(30, 0, duration=z), "duration_ok (Some [0%Q])", ARRAY_FORMS),
+    "Phi_phi": (lambda epg, z: epg.Phi(z)(_sm(epg)), "prepare_ok true [1%nat] [1%nat]", ARRAY_FORMS),
+    "Phi_duration": (lambda epg, z: epg.Phi(30, duration=z), "duration_ok (Some [0%Q])", ARRAY_FORMS),
+    "E_tau": (lambda epg, z: epg.E(z, 100, 10)(_sm(epg)), "timed_op_ok DNone [0%Q]", ARRAY_FORMS),
+    "E_tau_duration_true": (lambda epg, z: epg.E(z, 100, 10, duration=True)(_sm(epg)), "timed_op_ok DTrue [0%Q]", ARRAY_FORMS),
+    "E_tau_order1": (lambda epg, z: epg.E(z, 100, 10, order1=True, order2=True)(_sm(epg)), "timed_op_ok DNone [0%Q]", []),
+    "E_g": (lambda epg, z: epg.E(5, 100, 10, z)(_sm(epg)), "timed_op_ok DNone [5%Q]", ARRAY_FORMS),
+    "E_duration": (lambda epg, z: epg.E(5, 100, 10, duration=z), "timed_op_ok (DVal [0%Q]) [5%Q]", ARRAY_FORMS),
+    "P_tau": (lambda epg, z: epg.P(z, 0.5, duration=True)(_sm(epg)), "timed_op_ok DTrue [0%Q]", ARRAY_FORMS),
+    "P_g": (lambda epg, z: epg.P(5, z)(_sm(epg)), "timed_op_ok DNone [5%Q]", ARRAY_FORMS),
+    "R_rT": (lambda epg, z: epg.R(z, 0.125)(_sm(epg)), "duration_ok None", ARRAY_FORMS),
+    "R_rL": (lambda epg, z: epg.R(0.125, z)(_sm(epg)), "duration_ok None", ARRAY_FORMS),
+    "R_r0": (lambda epg, z: epg.R(0.125, 0.125, r0=z)(_sm(epg)), "duration_ok None", ARRAY_FORMS),
+    "S_duration": (lambda epg, z: epg.S(1, duration=z)(_sm(epg)), "S_ok (KInt 1%Z) (Some [0%Q])", ARRAY_FORMS),
+    "S_prune": (lambda epg, z: epg.S(np.array([[1, 0]]), prune=z)(_sm(epg)),
+                "S_ok (KArr false [1%nat; 2%nat] [1%Q; 0%Q]) None", []),
+    "S_zero_component": (lambda epg, z: epg.S([1, int(np.ravel(z)[0]), 0])(_sm(epg)),
+                         "S_ok (KArr false [3%nat] [1%Q; 0%Q; 0%Q]) None", []),
+    "G_zero_component": (lambda epg, z: epg.G(1.0, [1.0, float(z), 0.0], duration=z),
+                         "G_ok 1%Q [] [1%Q] [3%nat] [1%Q; 0%Q; 0%Q] (DVal [0%Q])", []),
+    "C_duration": (lambda epg, z: epg.C(1.0, duration=z), "C_ok [] [1%Q] (DVal [0%Q])", []),
+    "D_tau": (lambda epg, z: epg.D(z, 1.0, duration=True)(_sm1(epg)), "timed_op_ok DTrue [0%Q]", ARRAY_FORMS),
+    "D_coefficient": (lambda epg, z: epg.D(5.0, z)(_sm1(epg)), "D_shape_ok [] [] None", []),
+    "D_duration": (lambda epg, z: epg.D(5.0, 1.0, duration=z)(_sm1(epg)), "timed_op_ok (DVal [0%Q]) [5%Q]", ARRAY_FORMS),
+    "X_tau": (lambda epg, z: epg.X(z, 0.125, duration=True)(_sm(epg)), "X_ok 0%Q (KhiScalar (1 # 8)%Q) DTrue", []),
+    "X_rate": (lambda epg, z: epg.X(1.0, z)(_sm(epg)), "X_ok 1%Q (KhiScalar 0%Q) DNone", []),
+    "X_g": (lambda epg, z: epg.X(1.0, 0.125, g=z)(_sm(epg)), "X_ok 1%Q (KhiScalar (1 # 8)%Q) DNone", []),
+    "X_duration": (lambda epg, z: epg.X(1.0, 0.125, duration=z), "X_ok 1%Q (KhiScalar (1 # 8)%Q) (DVal [0%Q])", []),
+    "X_zero_matrix": (lambda epg, z: epg.X(1.0, [[z, z], [z, z]] if np.ndim(z) == 0 else np.zeros((2, 2)))(_sm(epg)),
+                      "X_ok 1%Q (KhiArr [2%nat; 2%nat] [0%Q; 0%Q; 0%Q; 0%Q]) DNone", []),
+    "PD_density": (lambda epg, z: epg.PD(z)(_sm(epg)), "duration_ok None", ARRAY_FORMS),
+    "PD_duration": (lambda epg, z: epg.PD(1.0, duration=z), "duration_ok (Some [0%Q])", ARRAY_FORMS),
+    "Wait_duration": (lambda epg, z: epg.Wait(z)(_sm(epg)), "wait_ok [0%Q]", ["array_1"]),
+    "Offset_duration": (lambda epg, z: epg.Offset(z)(_sm(epg)), "offset_ok [0%Q]", ["array_1"]),
+    "MultiOperator_duration": (lambda epg, z: epg.MultiOperator([epg.T(30, 0), epg.Wait(1)], duration=z)(_sm(epg)),
+                               "duration_ok (Some [0%Q])", ARRAY_FORMS),
+    "ScalarOp_zero_coefficients": (lambda epg, z: _mod("opscalar").ScalarOp([complex(np.ravel(z)[0])] * 3)(_sm(epg)),
+                                   "scalar_coef_ok ([3%nat], [qr 0 1; qr 0 1; qr 0 1]) None", []),
+    "ScalarOp_zero_arr0": (lambda epg, z: _mod("opscalar").ScalarOp([1, 1, 1], [complex(np.ravel(z)[0])] * 3)(_sm(epg)),
+                           "scalar_coef_ok ([3%nat], [qr 1 1; qr 1 1; qr 1 1]) (Some ([3%nat], [qr 0 1; qr 0 1; qr 0 1]))", []),
+    "MatrixOp_zero_matrix": (lambda epg, z: _mod("opmatrix").MatrixOp(np.zeros((3, 3)) * np.ravel(z)[0])(_sm(epg)),
+                             "matrix_coef_ok ([3%nat; 3%nat], " + core.clist(["qr 0 1"] * 9) + ") None", []),
+    "StateMatrix_zero_init": (lambda epg, z: epg.StateMatrix([float(np.ravel(z)[0])] * 3),
+                              "states_ok [3%nat] [qr 0 1; qr 0 1; qr 0 1]", []),
+    "StateMatrix_zero_density": (lambda epg, z: epg.T(30, 0)(epg.StateMatrix(density=z)), "prepare_ok true [1%nat] [1%nat]", ARRAY_FORMS),
+    "StateMatrix_zero_equilibrium": (lambda epg, z: epg.StateMatrix([0, 0, 1], equilibrium=[float(np.ravel(z)[0])] * 3),
+                                     "states_ok [3%nat] [qr 0 1; qr 0 1; qr 0 1]", []),
+    "StateMatrix_nstate": (lambda epg, z: epg.S(1)(epg.StateMatrix(nstate=int(z), max_nstate=int(z))), "prepare_ok true [1%nat] [1%nat]", []),
+    "simulate_zero_init": (lambda epg, z: epg.simulate([epg.T(30, 0), epg.S(1), epg.ADC], init=[float(np.ravel(z)[0])] * 3),
+                           "states_ok [3%nat] [qr 0 1; qr 0 1; qr 0 1] >> simulate_ok 8 [IOp [1%nat]; IOp [1%nat]; IProbe]", []),
+    "simulate_max_nstate": (lambda epg, z: epg.simulate([epg.T(30, 0), epg.S(1), epg.ADC], max_nstate=int(z)),
+                            "simulate_ok 8 [IOp [1%nat]; IOp [1%nat]; IProbe]", []),
+    "Adc_phase": (lambda epg, z: epg.simulate([epg.T(30, 0), epg.Adc(phase=z)]), "simulate_ok 8 [IOp [1%nat]; IProbe]", ARRAY_FORMS),
+    "Sequence_value_flip_angle": (lambda epg, z: _seq(_mod("sequence"))(a=z, tau=5.0, T1=100.0, T2=10.0),
+                                  'seq_values_ok ["a"%string] ["a"%string]', ARRAY_FORMS),
+    "Sequence_value_tau": (lambda epg, z: _seq(_mod("sequence"))(a=30.0, tau=z, T1=100.0, T2=10.0),
+                           'seq_values_ok ["tau"%string] ["tau"%string]', ARRAY_FORMS),
+    "Sequence_all_values_zero_but_T": (lambda epg, z: _seq(_mod("sequence"))(a=z, tau=z, T1=100.0, T2=10.0),
+                                       'seq_values_ok ["a"%string; "tau"%string] ["a"%string; "tau"%string]', []),
+    "Sequence_jacobian_at_zero": (lambda epg, z: _seq(_mod("sequence")).jacobian(["a", "tau"])(a=z, tau=z, T1=100.0, T2=10.0),
+                                  'seq_build_ok ["a"%string; "tau"%string] ["a"%string; "tau"%string] [] ["a"%string; "tau"%string]', []),
+    "Sequence_valuesdict": (lambda epg, z: _seq(_mod("sequence")).signal()({"a": z, "tau": z, "T1": 100.0, "T2": 10.0}),
+                            'seq_values_ok ["a"%string] ["a"%string]', []),
+    "rfpulse_alpha": (lambda epg, z: _mod("rfpulse").rfpulse(PULSE_REAL, 2.0, alpha=z), "pulse_ok None (Some 0%Q) 1 [] (PScalar 2%Q)", []),
+    "RFPulse_alpha": (lambda epg, z: _mod("rfpulse").RFPulse(PULSE_REAL, 2.0, alpha=z)(_sm(epg)), "pulse_ok None (Some 0%Q) 1 [] (PScalar 2%Q)", []),
+    "RFPulse_alpha_with_relaxation": (lambda epg, z: _mod("rfpulse").RFPulse(PULSE_REAL, 2.0, alpha=z, T1=100.0, T2=10.0, g=z)(_sm(epg)),
+                                      "pulse_ok None (Some 0%Q) 1 [] (PScalar 2%Q)", []),
+    "simulate_RFPulse_alpha": (lambda epg, z: epg.simulate([epg.T(90, 90), _mod("rfpulse").RFPulse(PULSE_REAL, 2.0, alpha=z), epg.ADC]),
+                               "pulse_ok None (Some 0%Q) 1 [] (PScalar 2%Q) >> simulate_ok 8 [IOp [1%nat]; IOp [1%nat]; IProbe]", []),
+    "RFPulse_rf": (lambda epg, z: _mod("rfpulse").RFPulse(PULSE, 2.0, rf=z)(_sm(epg)), "pulse_ok (Some 0%Q) None 1 [] (PScalar 2%Q)", []),
+    "RFPulse_rf_and_alpha": (lambda epg, z: _mod("rfpulse").RFPulse(PULSE, 2.0, rf=z, alpha=z)(_sm(epg)),
+                             "pulse_ok (Some 0%Q) (Some 0%Q) 1 [] (PScalar 2%Q)", []),
+    "RFPulse_phi": (lambda epg, z: _mod("rfpulse").RFPulse(PULSE, 2.0, rf=0.25, phi=z)(_sm(epg)),
+                    "pulse_ok (Some (1 # 4)%Q) None 1 [] (PScalar 2%Q)", []),
+    "RFPulse_duration": (lambda epg, z: _mod("rfpulse").RFPulse(PULSE, z, rf=0.25)(_sm(epg)),
+                         "pulse_ok (Some (1 # 4)%Q) None 1 [] (PScalar 0%Q)", []),
+    "RFPulse_g": (lambda epg, z: _mod("rfpulse").RFPulse(PULSE, 2.0, rf=0.25, T1=100.0, T2=10.0, g=z)(_sm(epg)),
+                  "pulse_ok (Some (1 # 4)%Q) None 1 [] (PScalar 2%Q)", []),
+    "RFPulse_g_only": (lambda epg, z: _mod("rfpulse").RFPulse(PULSE, 2.0, rf=0.25, g=z)(_sm(epg)),
+                       "pulse_ok (Some (1 # 4)%Q) None 1 [] (PScalar 2%Q)", []),
+    "RFPulse_zero_samples": (lambda epg, z: _mod("rfpulse").RFPulse([complex(np.ravel(z)[0])] * 4, 2.0, rf=0.25)(_sm(epg)),
+                             "pulse_ok (Some (1 # 4)%Q) None 1 [qr 0 1; qr 0 1] (PScalar 2%Q)", []),
+    "modify_g": (lambda epg, z: epg.modify([epg.T(30, 0, duration=1.0), epg.ADC], T1=100.0, T2=10.0, g=z),
+                 "modify_ok 8 [IOp [1%nat]; IProbe] true", ARRAY_FORMS),
+    "modify_g_only": (lambda epg, z: epg.modify([epg.T(30, 0, duration=1.0), epg.ADC], g=z),
+                      "modify_ok 8 [IOp [1%nat]; IProbe] true", ARRAY_FORMS),
+    "modify_att": (lambda epg, z: epg.modify([epg.T(30, 0, duration=1.0), epg.ADC], att=z, T1=100.0),
+                   "modify_ok 8 [IOp [1%nat]; IProbe] true", ARRAY_FORMS),
+    "modify_zero_duration_op": (lambda epg, z: epg.modify([epg.T(30, 0, duration=z), epg.ADC], T1=100.0, T2=10.0),
+                                "modify_ok 8 [IOp [1%nat]; IProbe] true", []),
+}
+
+# flags, None and empty-but-allowed collections (no zero form to sweep)
+EMPTY = {
+    "MultiOperator_empty_list": (lambda epg: epg.MultiOperator([])(_sm(epg)), "multioperator_ok []"),
+    "MultiOperator_none": (lambda epg: epg.MultiOperator(None)(_sm(epg)), "multioperator_ok []"),
+    "MultiOperator_empty_tuple": (lambda epg: epg.MultiOperator(())(_sm(epg)), "multioperator_ok []"),
+    "order1_false_order2_false": (lambda epg: epg.T(30, 0, order1=False, order2=False)(_sm(epg)),
+                                  'parse_partials_ok ["alpha"%string; "phi"%string] [] O1False O2False'),
+    "order1_none": (lambda epg: epg.T(30, 0, order1=None, order2=False)(_sm(epg)),
+                                'parse_partials_ok ["alpha"%string; "phi"%string] [] O1False O2False'),
+    "order1_empty_list": (lambda epg: epg.T(30, 0, order1=[], order2=[])(_sm(epg)),
+                          'parse_partials_ok ["alpha"%string; "phi"%string] [] (O1List []) (O2StrList [])'),
+    "order1_empty_dict": (lambda epg: epg.E(5, 100, 10, order1={}, order2={})(_sm(epg)),
+                          'parse_partials_ok ["tau"%string] [] (O1Alias []) (O2Dict [])'),
+    "PD_reset_false": (lambda epg: epg.PD(0.0, reset=False)(_sm(epg)), "duration_ok None"),
+    "S_nmax_none_kgrid_none": (lambda epg: epg.S(1, nmax=None, kgrid=None, prune=False)(_sm(epg)), "S_ok (KInt 1%Z) None"),
+    "simulate_flags_false": (lambda epg: epg.simulate([epg.T(30, 0), epg.ADC], adc_time=False, squeeze=False, probe=None,
+                                                      callback=None, asarray=False, disp=False),
+                             "simulate_ok 8 [IOp [1%nat]; IProbe]"),
+    "simulate_empty_probe_list": (lambda epg: epg.simulate([epg.T(30, 0), epg.ADC], probe=[]), "simulate_ok 8 [IOp [1%nat]; IProbe]"),
+    "simulate_nested_empty_list": (lambda epg: epg.simulate([epg.T(30, 0), [], epg.ADC]), "simulate_ok 8 [IOp [1%nat]; IList []; IProbe]"),
+    "modify_no_parameters": (lambda epg: epg.modify([epg.T(30, 0, duration=1.0), epg.ADC]), "modify_ok 8 [IOp [1%nat]; IProbe] true"),
+    "modify_modifier_none": (lambda epg: epg.modify([epg.T(30, 0, duration=1.0), epg.ADC], None, T1=100.0),
+                             "modify_ok 8 [IOp [1%nat]; IProbe] true"),
+    "Sequence_empty": (lambda epg: _mod("sequence").Sequence([]), "seq_check_ok []"),
+    "Sequence_empty_options": (lambda epg: _seq(_mod("sequence")).signal(options={})(a=30.0, tau=5.0, T1=100.0, T2=10.0),
+                               'seq_values_ok ["a"%string] ["a"%string]'),
+    "Sequence_jacobian_empty_valuesdict": (lambda epg: _seq(_mod("sequence")).jacobian(["a"])({}, a=0.0, tau=0.0, T1=100.0, T2=10.0),
+                                           'seq_build_ok ["a"%string] ["a"%string] [] ["a"%string]'),
+    "Adc_reduce_false": (lambda epg: epg.simulate([epg.T(30, 0), epg.Adc(reduce=False)]), "simulate_ok 8 [IOp [1%nat]; IProbe]"),
+    "RFPulse_T_none": (lambda epg: _mod("rfpulse").RFPulse(PULSE, 2.0, rf=0.25, T1=None, T2=None, g=None, phi=None)(_sm(epg)),
+                       "pulse_ok (Some (1 # 4)%Q) None 1 [] (PScalar 2%Q)"),
+}
+
+
+def gen_falsy(rng, n):
+    out = []
+    for name, (_, _, extra) in FALSY.items():
+        for form in SCALAR_FORMS + list(extra):
+            out.append(case("falsy_valid", "%s=%s" % (name, form), {"name": name, "form": form}, "valid"))
+    for name in EMPTY:
+        out.append(case("falsy_valid", name, {"name": name, "form": None}, "valid"))
+    return out
+
+
+def build_falsy(spec, QK):
+    import epgpy as epg
+    if spec["form"] is None:
+        f, term = EMPTY[spec["name"]]
+        return (lambda: f(epg)), term
+    f, term, _ = FALSY[spec["name"]]
+    z = ZERO_FORMS[spec["form"]]()
+    return (lambda: f(epg, z)), term
+
+
 # ================================================================== registry
 CLASSES = {
     "duration": (gen_duration, build_duration, 3),
@@ -1334,6 +1531,7 @@ CLASSES = {
     "sequence": (gen_sequence, build_sequence, 3),
     "pulse": (gen_pulse, build_pulse, 2),
     "boundary": (gen_boundary, build_boundary, 0),
+    "falsy_valid": (gen_falsy, build_falsy, 0),
 }
 
 
@@ -1372,9 +1570,11 @@ def run(ctx):
         bump("expect", cs["expect"]); bump("outcome", cs["expect"] + ("->raised" if exc else "->accepted"))
         bump("exception", exc or "none"); bump("form", str(cs["spec"].get("form", "-")))
         if cs["expect"] == "invalid" and exc is None:
+            cs["reported"] = True
             ctx.report("invalid input accepted (%s / %s)" % (cs["class"], cs["variant"]), {"case": cs},
                        found_input=True, signature=signature(cs))
         elif cs["expect"] == "valid" and exc is not None:
+            cs["reported"] = True
             ctx.report("boundary-valid input rejected with %s (%s / %s)" % (exc, cs["class"], cs["variant"]),
                        {"case": cs}, found_input=True, signature=signature(cs))
     for cl_ in ("invalid", "valid", "model"):
@@ -1390,6 +1590,8 @@ def run(ctx):
     for (cs, term), v in zip(kept, verdicts):
         if v is False:
             ndis += 1
+            if cs.get("reported"):
+                continue       # already reported with its failing input (same case, same signature)
             ctx.report("guard model and implementation disagree on %s / %s (implementation: %s)" % (
                 cs["class"], cs["variant"], cs["observed"]),
                 {"case": cs, "model_term": term, "theorem_or_correspondence": "C20 correspondence Model/Validate.v vs epgpy"},
